@@ -142,113 +142,120 @@ End Merge.
    `heads`; on unsorted trees (the pre-fix situation for names that need escaping) the two differ — this
    literal version reproduces the duplicates.  Used by the correspondence (also on unsorted inputs) and
    compared with `merge` on every sorted case; the refinement is not proved (see NOTES). *)
+(* A heap element: the node together with the rest of its tree's iterator.  (The code keeps the iterators
+   in `tree_iters` and stores the tree number in the element; `tree_iters[num]` is only advanced when the
+   element of tree `num` has been popped, so carrying the iterator's remainder with the element is the same
+   data, and the heap never looks at it: `Ord for SortedNode` compares names only.) *)
+Definition hnode := (node * tree)%type.
+
+Fixpoint set_nth {A} (i : nat) (v : A) (l : list A) : list A :=
+  match i, l with
+  | _, [] => []
+  | O, _ :: r => v :: r
+  | S j, x :: r => x :: set_nth j v r
+  end.
+
+(* std::collections::BinaryHeap (a max-heap on a Vec) under `Ord for SortedNode` = reversed name order:
+   `hle a b` is `a <= b` there.  push = Vec::push + sift_up(0, old_len); pop = Vec::pop, swap with the
+   root, sift_down_to_bottom(0) (children move up, picking the right child on `<=`), then sift_up. *)
+Definition hle (a b : hnode) : bool := n_name (fst b) <=? n_name (fst a).
+
+Fixpoint sift_up (fuel : nat) (data : list hnode) (pos : nat) (elt : hnode) : list hnode :=
+  match fuel with
+  | O => set_nth pos elt data
+  | S f =>
+      match pos with
+      | O => set_nth O elt data
+      | _ =>
+          let parent := Nat.div (pos - 1) 2 in
+          let p := nth parent data elt in
+          if hle elt p then set_nth pos elt data else sift_up f (set_nth pos p data) parent elt
+      end
+  end.
+
+Definition heap_push (data : list hnode) (x : hnode) : list hnode :=
+  sift_up (S (length data)) (data ++ [x]) (length data) x.
+
+Fixpoint sift_down (fuel : nat) (data : list hnode) (pos end_ : nat) (d : hnode) : list hnode * nat :=
+  match fuel with
+  | O => (data, pos)
+  | S f =>
+      let child := (2 * pos + 1)%nat in
+      if (child + 2 <=? end_)%nat then
+        let c := if hle (nth child data d) (nth (child + 1) data d) then (child + 1)%nat else child in
+        sift_down f (set_nth pos (nth c data d) data) c end_ d
+      else if (child + 1 =? end_)%nat then (set_nth pos (nth child data d) data, child)
+      else (data, pos)
+  end.
+
+Definition heap_pop (data : list hnode) : option (hnode * list hnode) :=
+  match rev data with
+  | [] => None
+  | last :: rrest =>
+      let rest := rev rrest in
+      match rest with
+      | [] => Some (last, [])
+      | top :: _ =>
+          let '(data2, pos) := sift_down (S (length rest)) (set_nth O last rest) O (length rest) last in
+          Some (top, sift_up (S (length rest)) data2 pos last)
+      end
+  end.
+
 Section MergeLoop.
   Variable cmp : node -> node -> comparison.
+  (* the priority queue: BinaryHeap::push / BinaryHeap::pop.  The theorems about the loop (Proofs4.v) hold
+     for every pair satisfying the priority-queue specification; extraction uses heap_push / heap_pop *)
+  Variable hpush : list hnode -> hnode -> list hnode.
+  Variable hpop : list hnode -> option (hnode * list hnode).
 
-  Definition hnode := (node * nat)%type.
-
-  Fixpoint set_nth {A} (i : nat) (v : A) (l : list A) : list A :=
-    match i, l with
-    | _, [] => []
-    | O, _ :: r => v :: r
-    | S j, x :: r => x :: set_nth j v r
-    end.
-
-  (* std::collections::BinaryHeap (a max-heap on a Vec) under `Ord for SortedNode` = reversed name order:
-     `hle a b` is `a <= b` there.  push = Vec::push + sift_up(0, old_len); pop = Vec::pop, swap with the
-     root, sift_down_to_bottom(0) (children move up, picking the right child on `<=`), then sift_up. *)
-  Definition hle (a b : hnode) : bool := n_name (fst b) <=? n_name (fst a).
-
-  Fixpoint sift_up (fuel : nat) (data : list hnode) (pos : nat) (elt : hnode) : list hnode :=
-    match fuel with
-    | O => set_nth pos elt data
-    | S f =>
-        match pos with
-        | O => set_nth O elt data
-        | _ =>
-            let parent := Nat.div (pos - 1) 2 in
-            let p := nth parent data elt in
-            if hle elt p then set_nth pos elt data else sift_up f (set_nth pos p data) parent elt
-        end
-    end.
-
-  Definition heap_push (data : list hnode) (x : hnode) : list hnode :=
-    sift_up (S (length data)) (data ++ [x]) (length data) x.
-
-  Fixpoint sift_down (fuel : nat) (data : list hnode) (pos end_ : nat) (d : hnode) : list hnode * nat :=
-    match fuel with
-    | O => (data, pos)
-    | S f =>
-        let child := (2 * pos + 1)%nat in
-        if (child + 2 <=? end_)%nat then
-          let c := if hle (nth child data d) (nth (child + 1) data d) then (child + 1)%nat else child in
-          sift_down f (set_nth pos (nth c data d) data) c end_ d
-        else if (child + 1 =? end_)%nat then (set_nth pos (nth child data d) data, child)
-        else (data, pos)
-    end.
-
-  Definition heap_pop (data : list hnode) : option (hnode * list hnode) :=
-    match rev data with
-    | [] => None
-    | last :: rrest =>
-        let rest := rev rrest in
-        match rest with
-        | [] => Some (last, [])
-        | top :: _ =>
-            let '(data2, pos) := sift_down (S (length rest)) (set_nth O last rest) O (length rest) last in
-            Some (top, sift_up (S (length rest)) data2 pos last)
-        end
-    end.
-
-  (* `if let Some(next_node) = tree_iters[num].next() { elems.push(..) }` *)
-  Definition push_next (num : nat) (heap : list hnode) (iters : list tree) : list hnode * list tree :=
-    match nth num iters [] with
-    | n :: r => (heap_push heap (n, num), set_nth num r iters)
-    | [] => (heap, iters)
+  (* `if let Some(next_node) = tree_iters[num].next() { elems.push(SortedNode(next_node, num)) }` *)
+  Definition push_next (rest : tree) (heap : list hnode) : list hnode :=
+    match rest with
+    | n :: r => hpush heap (n, r)
+    | [] => heap
     end.
 
   Definition emit (rec : list tree -> tree) (g : list node) (rest : tree) : tree :=
     match merge_nodes cmp rec g with Some n => n :: rest | None => rest end.
 
   Fixpoint loop (fuel : nat) (rec : list tree -> tree) (cur : hnode) (nodes : list node)
-                (heap : list hnode) (iters : list tree) : tree :=
+                (heap : list hnode) : tree :=
     match fuel with
     | O => []
     | S f =>
-        let '(heap1, iters1) := push_next (snd cur) heap iters in
-        match heap_pop heap1 with
+        match hpop (push_next (snd cur) heap) with
         | None => emit rec (nodes ++ [fst cur]) []
         | Some (nx, heap2) =>
             if n_name (fst cur) =? n_name (fst nx)
-            then loop f rec nx (nodes ++ [fst cur]) heap2 iters1
-            else emit rec (nodes ++ [fst cur]) (loop f rec nx [] heap2 iters1)
+            then loop f rec nx (nodes ++ [fst cur]) heap2
+            else emit rec (nodes ++ [fst cur]) (loop f rec nx [] heap2)
         end
     end.
 
   (* fill the heap with the first element of every tree, in tree order *)
-  Fixpoint first_elems (i : nat) (h : list hnode) (ts : list tree) : list hnode * list tree :=
+  Fixpoint first_elems (h : list hnode) (ts : list tree) : list hnode :=
     match ts with
-    | [] => (h, [])
-    | t :: r =>
-        match t with
-        | n :: q => let '(h', it) := first_elems (S i) (heap_push h (n, i)) r in (h', q :: it)
-        | [] => let '(h', it) := first_elems (S i) h r in (h', [] :: it)
-        end
+    | [] => h
+    | t :: r => first_elems (match t with n :: q => hpush h (n, q) | [] => h end) r
+    end.
+
+  Definition loop_level (rec : list tree -> tree) (ts : list tree) : tree :=
+    match hpop (first_elems [] ts) with
+    | None => []
+    | Some (c, h') => loop (S (total_len ts)) rec c [] h'
     end.
 
   Fixpoint merge_trees_loop (d : nat) (ts : list tree) : tree :=
     match d with
     | O => []
-    | S d' =>
-        let '(h, it) := first_elems O [] ts in
-        match heap_pop h with
-        | None => []
-        | Some (c, h') => loop (S (total_len ts)) (merge_trees_loop d') c [] h' it
-        end
+    | S d' => loop_level (merge_trees_loop d') ts
     end.
 
-  Definition merge_loop (ts : list tree) : tree := merge_trees_loop (S (depths ts)) ts.
+  Definition merge_loop_gen (ts : list tree) : tree := merge_trees_loop (S (depths ts)) ts.
 End MergeLoop.
+
+Definition merge_loop (cmp : node -> node -> comparison) (ts : list tree) : tree :=
+  merge_loop_gen cmp heap_push heap_pop ts.
 
 (* the comparisons used by the correspondence *)
 Definition cmp_mtime (a b : node) : comparison := N.compare (n_mtime a) (n_mtime b).
